@@ -111,6 +111,7 @@ func IdentShape(r *engine.RNG, kind string) *engine.Shape {
 
 var optKeys = []string{"a", "b", "caps", "host", "port", "i", "s", "v", "netId", "router.version", "key", "x", "introducer0", "mtu", "",
 	"A", "Z", "aa", "a.b", "a=b", "k;", "\u00e9", "\u00e9a", "host ", "Host", strings.Repeat("q", 255)}
+
 // optVals include payload that looks like structure: runs of zero bytes (an
 // empty mapping, a NULL certificate, a zero count), a key certificate, a
 // complete pair. A parser that re-synchronises or looks ahead meets something
